@@ -137,6 +137,7 @@ type BedConfig struct {
 	Log               *mon.Log
 	ReconnectPolicy   proxycore.ReconnectPolicy
 	RetryPolicy       proxy.RetryPolicy // nil = the proxy's default policy
+	ListenWildcard    bool              // listen on 0.0.0.0 (clients may dial any 127.x.y.z address with the bed's port)
 	Logger            *zap.Logger
 	BackendMaxVersion primitive.ProtocolVersion
 	Unlisted          []int // hosts that exist (listen) but are not in the peers table when the proxy starts
@@ -235,12 +236,19 @@ func NewBed(cfg BedConfig) (*Bed, error) {
 		b.Close()
 		return nil, fmt.Errorf("proxy connect: %w", err)
 	}
-	b.ln, err = net.Listen("tcp", "127.0.0.1:0")
+	if cfg.ListenWildcard {
+		b.ln, err = net.Listen("tcp4", "0.0.0.0:0")
+	} else {
+		b.ln, err = net.Listen("tcp", "127.0.0.1:0")
+	}
 	if err != nil {
 		b.Close()
 		return nil, err
 	}
 	b.Addr = b.ln.Addr().String()
+	if cfg.ListenWildcard {
+		b.Addr = fmt.Sprintf("127.0.0.1:%d", b.ln.Addr().(*net.TCPAddr).Port)
+	}
 	go func() { _ = b.Proxy.Serve(b.ln) }()
 	return b, nil
 }
